@@ -30,6 +30,26 @@ U = 'unparsers/es5.py'
 
 # (name, [(file, old, new, nth)], check, rule prefix)
 FIRING = [
+    ('joinattr-separator-after-item', [('ruletypes.py', """            definition = self.value if self.value else ()
+            for value_node in walk(dispatcher, node, definition=definition):
+                yield value_node
+            for chunk in walk(dispatcher, target_node, token=self):
+                yield chunk""", """            for chunk in walk(dispatcher, target_node, token=self):
+                yield chunk
+            definition = self.value if self.value else ()
+            for value_node in walk(dispatcher, node, definition=definition):
+                yield value_node""", 0)], 'C01', 'R01.6'),
+    ('elisionjoin-wrong-node-tested', [('ruletypes.py', "            if not isinstance(previous_node, Elision):", "            if not isinstance(next_node, Elision):", 0)], 'C02', 'R02.6'),
+    ('walk-drops-token-chunks', [('unparsers/walker.py', "                layout_rule_chunks[:] = []\n                yield chunk", "                layout_rule_chunks[:] = []", 0)], 'C01', 'R01.7'),
+    ('process-layouts-after-text-lost', [('unparsers/walker.py', "        after_text = chunk.text if chunk else None", "        after_text = None", 0)], 'C02', 'R02.2'),
+    ('caseblock-comments-dropped', [(U, "    'CaseBlock': (\n        CommentsAttr(),\n", "    'CaseBlock': (\n", 0)], 'C13', 'R13.6'),
+    ('token-stack-shared-base', [(L, "        self.token_stack = [[None, []]]", "        self.token_stack = list(TOKEN_STACK_BASE)", 0),
+                                 (L, "PATT_LINE_TERMINATOR_SEQUENCE = re.compile(", "TOKEN_STACK_BASE = ([None, []],)\nPATT_LINE_TERMINATOR_SEQUENCE = re.compile(", 0)], 'C15', 'R15.2'),
+    ('normrelpath-prefix-shortcut', [('utils.py', "    return relpath(normpath(target), dirname(normpath(base)))", "    basedir = dirname(normpath(base))\n    target = normpath(target)\n    if target.startswith(basedir):\n        return target[len(basedir):].lstrip('/')\n    return relpath(target, basedir)", 0)], 'C18', 'R18.3'),
+    ('string-escapes-ascii-only', [(L, "                | \\\\[^\\n\\r\\u2028\\u20290-9xu] # escaped chars", "                | \\\\[a-tvwyzA-TVWYZ!-\\/:-@\\[-`{-~] # escaped chars", -1)], 'C06', 'R06.5'),
+    ('regex-literal-spans-lines', [(L, "        (?: [^\\\\/[\\n\\r\\u2028\\u2029]     # anything but \\ / [ or a newline", "        (?: [^\\\\/[]     # anything but \\ / [", 0)], 'C03', 'R06.5'),
+    ('restricted-production-paren-dependent', [(L, "            and self.prev_token is not None\n            and self.prev_token.type in ['BREAK', 'CONTINUE',", "            and self.prev_token is not None\n            and not self.token_stack[-1][1]\n            and self.prev_token.type in ['BREAK', 'CONTINUE',", 0)], 'C04', 'R04.3'),
+    ('groupasmap-first-wins', [('unparsers/extractor.py', "                result.update(item.value)", "                for k, v in item.value:\n                    result.setdefault(k, v)", 0)], 'C19', 'R19.2'),
     ('swap-operands-xor-noin', [(P, "BinOp(op=p[2], left=p[1], right=p[3])",
                                  "BinOp(op=p[2], left=p[3], right=p[1])", 21)],
      'C03', 'R03.'),
@@ -79,6 +99,9 @@ FIRING = [
 
 # behaviour-preserving edits
 TWINS = [
+    ('optional-inlines-is-empty', [('ruletypes.py', "        if is_empty(getattr(node, self.attr)):\n            return\n", "        value = getattr(node, self.attr)\n        if value is None or value == []:\n            return\n", 0)]),
+    ('process-layouts-local-renamed', [('unparsers/walker.py', "lrcs_stack", "pending", -1)]),
+    ('walk-nodes-stack-renamed', [('unparsers/walker.py', "sourcepath_stack", "srcpaths", -1)]),
     ('rename-nonterminal', [(P, 'identifier_name_string', 'identifier_name_str', -1)]),
     ('frozenset-as-set-literal', [(L, "IMPLIED_BLOCK_IDENTIFIER = frozenset([\n    'FOR',\n    'WHILE',\n    'IF',\n    'WITH',\n])",
                                    "IMPLIED_BLOCK_IDENTIFIER = {'FOR', 'WHILE', 'IF', 'WITH'}", 0)]),
